@@ -23,7 +23,10 @@ EXPLANATION = (
     "exponents symmetrically (abs) within the threshold. R11.5: _build "
     "returns the bare value first when the units are null. R11.6: is_zero "
     "is all(== 0) for arrays, == 0 otherwise; _unpack_qty, has_units and "
-    "in_units as specified.")
+    "in_units as specified; the constructors (ArrayQuantity.__new__ and "
+    "friends, Quantity.__init__) equal their reviewed references. R11.7: a "
+    "units local that is None somewhere in its function reaches ==/!= only "
+    "behind a test of it.")
 NOT_DECIDED = ("numpy's dispatch for array quantities (__array_priority__, "
                "ufunc overrides); the numeric value of the 1e-7 threshold")
 ASSUMPTIONS = ["Python binary-operator dispatch (reflected methods, no "
